@@ -6,10 +6,10 @@ CONSTANTS
   Part = "permute"
   FlagSet <- FlagsStd
   SchI = {1}
-  UsrI = {2}
+  UsrI = {1, 2}
   PwI = {1}
   HostI = {1}
-  PortI = {1, 2}
+  PortI = {1}
   PNameI = {1, 2, 7}
   PValI = {1, 2}
   KP = 3
